@@ -12,7 +12,7 @@ TLC (TraceSem.tla) accepts a recorded execution iff result and observation log e
 import semlib
 
 PID = "C02"
-AGG = ["ints", "bool", "str", "char", "rec", "enum", "opt", "list", "loops", "calls", "ret", "copymut", "float", "generic", "hostopt", "shadow", "gconst", "kconst", "mods", "exprstmt"]
+AGG = ["ints", "bool", "str", "char", "rec", "enum", "opt", "list", "loops", "calls", "ret", "copymut", "float", "generic", "hostopt", "shadow", "gconst", "kconst", "mods", "exprstmt", "hmeth"]
 
 
 def run(tier):
